@@ -542,6 +542,54 @@ Proof.
     match goal with Hp : pairs m = [] |- _ => rewrite Hp end. reflexivity.
 Qed.
 
+(* same(want, got) of the test built-in: walks [got] *)
+Lemma same_wp d : forall S s w g tw tg,
+  heap_ok S (st_heap s) -> sfind S w = Some tw -> sfind S g = Some tg ->
+  (strict = true -> deep_ok tg d) ->
+  wp (same d w g s) (fun _ s' => s' = s).
+Proof.
+  induction d as [|d IH]; intros S s w g tw tg Hh Hw Hg Hd.
+  { cbn [same]. eapply overflow_wp; eauto. right; right; right; reflexivity. }
+  cbn [same].
+  wbind ltac:(eapply load_wp; eauto). intros vg s' [-> Hvg].
+  wbind ltac:(eapply load_wp; eauto). intros vw s' [-> Hvw].
+  inversion Hvg; subst.
+  - destruct vw; reflexivity.
+  - destruct vw; reflexivity.
+  - destruct vw; reflexivity.
+  - (* got is an any *)
+    assert (Hdi : strict = true -> deep_ok u d) by eauto using deep_ok_any.
+    inversion Hvw; subst; eapply IH; eauto.
+  - (* got is an array *)
+    inversion Hvw; subst; try reflexivity.
+    + match goal with |- context [if ?c then _ else _] => destruct c; [reflexivity|] end.
+      apply eq_go_pure. intros x y Hx Hy.
+      match goal with H1 : Forall _ els, H2 : Forall _ els0 |- _ => rewrite Forall_forall in H1, H2;
+        pose proof (H1 _ Hy); pose proof (H2 _ Hx) end.
+      eapply IH; eauto using deep_ok_elem.
+    + match goal with |- context [if ?c then _ else _] => destruct c; reflexivity end.
+  - (* got is the untyped [] *)
+    inversion Hvw; subst; try reflexivity;
+      try (match goal with |- context [if ?c then _ else _] => destruct c; [reflexivity|] end);
+      try reflexivity; try (apply eq_go_pure; intros x y Hx []).
+  - (* got is a map *)
+    inversion Hvw; subst; try reflexivity.
+    + match goal with |- context [if ?c then _ else _] => destruct c; [reflexivity|] end.
+      apply eq_mgo_pure. intros k i j Hin Hj.
+      match goal with HF : Forall _ (pairs m0) |- _ => rewrite Forall_forall in HF; pose proof (HF _ Hin) as Hti end.
+      simpl in Hti. eapply IH; eauto using map_entry_typed, deep_ok_elem.
+    + match goal with |- context [if ?c then _ else _] => destruct c; [reflexivity|] end.
+      match goal with Hp : pairs m0 = [] |- _ => rewrite Hp end. reflexivity.
+  - (* got is the untyped {} *)
+    inversion Hvw; subst; try reflexivity.
+    + match goal with |- context [if ?c then _ else _] => destruct c; [reflexivity|] end.
+      apply eq_mgo_pure. intros k i j Hin Hj.
+      match goal with Hp : pairs m = [] |- _ => rewrite Hp in Hj end. discriminate.
+    + match goal with |- context [if ?c then _ else _] => destruct c; [reflexivity|] end.
+      match goal with Hp : pairs m0 = [] |- _ => rewrite Hp end. reflexivity.
+  - destruct vw; reflexivity.
+Qed.
+
 (* deepCopy: [dc_ok t d]: in the strict fragment the copy of a value of type t needs at most d levels *)
 Definition dc_ok (t : ty) (d : nat) : Prop := strict = true -> deep_ok t d.
 
@@ -2138,12 +2186,103 @@ Proof.
   - intros [[(u & H1)|H] H2]; (split; [|exact H2]); [left; eauto|right; auto].
 Qed.
 
-(* ---------- calls of user functions ---------- *)
-Lemma call_frag_not_test name : call_frag name = true -> str_eqb name n_test = false.
+(* ---------- the test built-in ---------- *)
+Definition run_test_body (d : nat) (args : list loc) : M unit :=
+  let validate : M unit :=
+    match args with
+    | [] => fail (EPanic PkBadArguments)
+    | [a] => let* v := unwrap_any a in match v with HBool _ => ret tt | _ => fail (EPanic PkBadArguments) end
+    | _ :: _ :: rest =>
+        match rest with
+        | m :: _ => let* v := unwrap_any m in match v with HStr _ => ret tt | _ => fail (EPanic PkBadArguments) end
+        | [] => ret tt
+        end
+    end in
+  fun s0 =>
+    let bump (failed : bool) (s : state) :=
+      upd_tests (Datatypes.S (st_total s)) (if failed then Datatypes.S (st_fails s) else st_fails s) s in
+    match validate s0 with
+    | (Er e, s1) => (Er e, bump false s1)
+    | (Ok _, s1) =>
+        let verdict : M bool :=
+          match args with
+          | [a] => let* v := unwrap_any a in match v with HBool b => ret b | _ => crash "test: not a bool" end
+          | w :: g :: _ => same d w g
+          | [] => ret true
+          end in
+        match verdict s1 with
+        | (Er e, s2) => (Er e, bump false s2)
+        | (Ok true, s2) => (Ok tt, bump false s2)
+        | (Ok false, s2) =>
+            let s3 := bump true s2 in
+            if st_failfast s3 then (Er ETestFail, s3) else (Ok tt, s3)
+        end
+    end.
+
+Lemma run_test_unfold args s : run_test args s = run_test_body value_depth args s.
+Proof. reflexivity. Qed.
+
+Lemma run_test_body_wp d S G e s args :
+  inv S G e s -> Forall (fun l => sfind S l = Some TAny) args -> (strict = true -> deep_ok TAny d) ->
+  wp (run_test_body d args s) (fun _ s' => inv S G e s').
 Proof.
-  unfold call_frag. intros H. apply orb_true_iff in H as [H|H].
-  - apply (s1_name_facts name [] H).
-  - destruct (str_eqb name n_test) eqn:E; auto. apply str_eqb_eq in E; subst. vm_compute in H. discriminate.
+  intros Hi Hall Hd. pose proof Hi as [Hh He].
+  assert (BUMP : forall n m, inv S G e (upd_tests n m s)) by (intros; eapply inv_same; eauto).
+  pose proof (proj1 (Forall_forall _ _) Hall) as Hin.
+  assert (UW : forall a, In a args -> wp (unwrap_any a s) (fun _ s' => s' = s)).
+  { intros a Ha. eapply unwrap_any_wp; eauto. }
+  unfold run_test_body. cbv zeta.
+  destruct args as [|a [|b rest]].
+  - exact I.
+  - pose proof (UW a (or_introl eq_refl)) as Ua. unfold bindM, wp in *.
+    destruct (unwrap_any a s) as [[v|er] s1] eqn:Eu; [subst s1|exact Ua].
+    destruct v; try exact I. unfold ret at 1. cbv iota beta. rewrite Eu. unfold ret.
+    destruct b; [apply BUMP|]. cbn [st_failfast upd_tests]. destruct (st_failfast s); [exact I|apply BUMP].
+  - assert (SM : wp (same d a b s) (fun _ s' => s' = s)).
+    { eapply (same_wp d S s a b TAny TAny); [auto|apply Hin; left; reflexivity|apply Hin; right; left; reflexivity|auto]. }
+    assert (TAIL : forall s1, s1 = s ->
+      wp (match same d a b s1 with
+          | (Er e0, s2) => (Er e0, upd_tests (Datatypes.S (st_total s2)) (st_fails s2) s2)
+          | (Ok true, s2) => (Ok tt, upd_tests (Datatypes.S (st_total s2)) (st_fails s2) s2)
+          | (Ok false, s2) =>
+              if st_failfast (upd_tests (Datatypes.S (st_total s2)) (Datatypes.S (st_fails s2)) s2)
+              then (Er ETestFail, upd_tests (Datatypes.S (st_total s2)) (Datatypes.S (st_fails s2)) s2)
+              else (Ok tt, upd_tests (Datatypes.S (st_total s2)) (Datatypes.S (st_fails s2)) s2)
+          end) (fun _ s' => inv S G e s')).
+    { intros s1 ->. unfold wp in SM |- *.
+      destruct (same d a b s) as [[r|er] s2]; [subst s2|exact SM].
+      destruct r; [apply BUMP|]. cbn [st_failfast upd_tests]. destruct (st_failfast s); [exact I|apply BUMP]. }
+    destruct rest as [|m rest'].
+    + unfold ret at 1. apply TAIL; reflexivity.
+    + pose proof (UW m (or_intror (or_intror (or_introl eq_refl)))) as Um. unfold bindM at 1.
+      unfold wp in Um. destruct (unwrap_any m s) as [[v|er] s1] eqn:Eu; [subst s1|exact Um].
+      destruct v; try exact I; unfold ret at 1; apply TAIL; reflexivity.
+Qed.
+
+Lemma run_test_wp S G e s args :
+  inv S G e s -> Forall (fun l => sfind S l = Some TAny) args ->
+  wp (run_test args s) (fun _ s' => inv S G e s').
+Proof.
+  intros Hi Hall. rewrite run_test_unfold. eapply run_test_body_wp; eauto.
+  intros Hs. eapply deep_ok_of_ok1; auto.
+Qed.
+
+(* ---------- calls of user functions ---------- *)
+Lemma call_frag_cases name : call_frag name = true ->
+  name = n_test \/ (str_eqb name n_test = false /\ (mem_str name s1_builtins = true \/ builtin_sig name = None)).
+Proof.
+  unfold call_frag. intros H.
+  destruct (str_eqb name n_test) eqn:E; [left; apply str_eqb_eq; auto|right; split; auto].
+  rewrite orb_false_r in H. apply orb_true_iff in H as [H|H]; auto.
+  right. destruct (builtin_sig name); [discriminate|auto].
+Qed.
+
+Lemma forallb_any_typed (S : sty) vals ts :
+  Forall2 (fun l t => sfind S l = Some t) vals ts -> forallb (arg_ok TAny) ts = true ->
+  Forall (fun l => sfind S l = Some TAny) vals.
+Proof.
+  induction 1 as [|l t ls ts' Hl _ IH]; cbn [forallb]; intros H; constructor; apply andb_true_iff in H as [H1 H2]; auto.
+  apply arg_ok_basic in H1; [congruence|discriminate|discriminate].
 Qed.
 
 Lemma builtin_some_sig name e vals m : builtin name e vals = Some m -> builtin_sig name <> None.
@@ -2236,22 +2375,25 @@ Section CallStep.
   Lemma call_step : call_sound (S f).
   Proof.
     intros P e name args G sg ts S s Hsig Hty Hok Hm Hs1 HG Hi. cbn [eval_call].
-    pose proof (call_frag_not_test _ Hm) as Htest.
     wbind ltac:(eapply IHes; eauto using sig_args_ok_value). intros vals s1 (S1 & E1 & Hi1 & HF).
+    destruct (call_frag_cases _ Hm) as [->|[Htest Hm']].
+    { (* test *)
+      change (str_eqb n_test n_test) with true. cbv iota.
+      unfold lookup_sig in Hsig. vm_compute in Hsig. inversion Hsig; subst sg. clear Hsig.
+      unfold sig_args_ok in Hok. cbn [fs_var fs_params] in Hok.
+      wbind ltac:(eapply run_test_wp; eauto using forallb_any_typed). intros _ s2 Hi2.
+      apply wp_ret. exists S1; split; [auto|split; [auto|reflexivity]]. }
     rewrite Htest. destruct (builtin name e vals) as [m|] eqn:Eb.
     - (* a modelled built-in *)
       assert (Hmem : mem_str name s1_builtins = true).
-      { unfold call_frag in Hm. apply orb_true_iff in Hm as [Hm|Hm]; auto.
-        apply builtin_some_sig in Eb. destruct (builtin_sig name); [discriminate|congruence]. }
+      { destruct Hm' as [Hm'|Hm']; auto. apply builtin_some_sig in Eb. congruence. }
       destruct (s1_name_facts name (p_funcs P) Hmem) as (_ & Hl & _).
       eapply wp_mono; [eapply builtin_sound; eauto; rewrite <- Hl; eauto|]. cbv beta.
       intros r s2 (S2 & l & -> & E2 & Hi2 & Hl2). exists S2; split; [eauto using ext_trans|split; auto].
     - destruct (existsb (str_eqb name) unmodelled_builtins); [exact I|].
       (* a user function *)
       assert (Hnb : builtin_sig name = None).
-      { unfold call_frag in Hm. apply orb_true_iff in Hm as [Hm|Hm].
-        - apply builtin_none in Eb. congruence.
-        - destruct (builtin_sig name); [discriminate|auto]. }
+      { destruct Hm' as [Hm'|Hm']; auto. apply builtin_none in Eb. congruence. }
       unfold lookup_sig in Hsig. rewrite Hnb in Hsig.
       destruct (find_func name (p_funcs P)) as [fd|] eqn:Ef; [|discriminate].
       simpl in Hsig. inversion Hsig; subst sg. clear Hsig.
